@@ -137,7 +137,8 @@ Section Product.
     end.
 
   Definition sub_taus (i : nat) : list rlabel :=
-    [RM (LDeliver i); RM (LFwdTake i); RM (LFwdPut i); RM (LFwdClose i); RM (LUnsub i)].
+    [RM (LDeliver i); RM (LFwdTake i); RM (LFwdPut i); RM (LFwdClose i); RM (LUnsub i);
+     RM (LFwdAbort i)].
 
   Definition rtaus (s : rstate) : list rlabel :=
     map RC ctaus ++ flat_map sub_taus (range 0 (length (subs (rm s)))).
